@@ -212,14 +212,29 @@ func runC07(c *Ctx) {
 		c07Block(c, r, cols, rows, rev)
 	}
 	// zero-row blocks whose last column is stateful; wide LowCardinality dictionaries
-	for _, s := range []string{"LowCardinality(String)", "Array(LowCardinality(String))", "Map(LowCardinality(String), String)"} {
+	for _, s := range []string{"LowCardinality(String)", "Array(LowCardinality(String))", "Map(LowCardinality(String), String)", "JSON"} {
 		t, _ := parseCH(s)
 		for _, rows := range []int{0, 300} {
-			cols, err := buildCols(r, 2, rows, genOpts{lcDistinct: 280}, func() *TNode { return t })
-			if err != nil {
-				continue
+			for _, ncols := range []int{1, 2} {
+				cols, err := buildCols(r, ncols, rows, genOpts{lcDistinct: 280}, func() *TNode { return t })
+				if err != nil {
+					continue
+				}
+				c07Block(c, r, cols, rows, 54460)
 			}
-			c07Block(c, r, cols, rows, 54460)
+			// a stateless column first, the stateful one last
+			str, _ := parseCH("String")
+			i := 0
+			cols, err := buildCols(r, 2, rows, genOpts{lcDistinct: 280}, func() *TNode {
+				i++
+				if i == 1 {
+					return str
+				}
+				return t
+			})
+			if err == nil {
+				c07Block(c, r, cols, rows, 54460)
+			}
 		}
 	}
 	revs := c17Revisions(false)
